@@ -6,6 +6,7 @@ is where `pack` is related to RFC 4511.  Natively these functions are computed w
 checking compares real bytes.
 """
 from specs.prelude import *  # noqa: F401,F403
+from specs.ber import *  # noqa: F401,F403
 
 
 @uninterpreted
@@ -41,3 +42,68 @@ def st_opened() -> int:
 
 def st_closed() -> int:
     return 4
+
+
+# ---- framing of the incoming byte stream (C02, C06): top-level TLVs, by the X.690 header semantics of specs/ber.py
+@uninterpreted
+def dec_content(content: bytes, o: obj) -> obj:
+    """The message denoted by the content octets of one LDAPMessage envelope under the options o (decoding is a
+    function of those octets and the options only: see C19)."""
+    raise NotImplementedError
+
+
+def tlv_len(s: bytes) -> int:
+    return hdr_len(s) + val_len(s)
+
+
+def residue(s: bytes) -> bytes:
+    """What is left after the complete top-level TLVs at the front of s: empty or the beginning of an incomplete one."""
+    return s if not tlv_complete(s) else residue(drop(s, tlv_len(s)))
+
+
+def nframes(s: bytes) -> int:
+    return 0 if not tlv_complete(s) else 1 + nframes(drop(s, tlv_len(s)))
+
+
+def msgs(s: bytes, o: obj) -> seqobj:
+    """The messages denoted by the complete top-level TLVs at the front of s, in order."""
+    return nil_obj() if not tlv_complete(s) else cons_obj(dec_content(content_of(s), o), msgs(drop(s, tlv_len(s)), o))
+
+
+# ---- chunking lemmas (C02): delivering A and then B is the same as delivering A ++ B
+def lemma_tlv_prefix(a: bytes, b: bytes) -> None:
+    """A complete TLV stays the same TLV when more octets follow."""
+    assert len(a) >= 1
+    if id_low(a) >= 31:
+        lemma_b128end_bounds(drop(a, 1), 0)
+        lemma_b128end_prefix(drop(a, 1), b, 0)
+        lemma_b128_prefix(drop(a, 1), b, 0, id_len(a) - 1)
+        assert drop(cat(a, b), 1) == cat(drop(a, 1), b)
+    assert id_len(a) >= 1
+    assert id_len(a) < len(a)
+    assert cat(a, b)[0] == a[0]
+    assert id_len(cat(a, b)) == id_len(a)
+    assert cat(a, b)[id_len(a)] == a[id_len(a)]
+    if len_first(a) >= 128:
+        lemma_be_bound(drop(a, id_len(a) + 1), 0, len_first(a) - 128)
+        lemma_be_prefix(drop(a, id_len(a) + 1), b, 0, len_first(a) - 128)
+        assert drop(cat(a, b), id_len(a) + 1) == cat(drop(a, id_len(a) + 1), b)
+    assert hdr_len(cat(a, b)) == hdr_len(a)
+    assert val_len(cat(a, b)) == val_len(a)
+    assert val_len(a) >= 0
+
+
+def lemma_chunk(a: bytes, b: bytes, o: obj) -> None:
+    """msgs(a ++ b) == msgs(a) ++ msgs(residue(a) ++ b)   and   residue(a ++ b) == residue(residue(a) ++ b)."""
+    if tlv_complete(a):
+        lemma_tlv_prefix(a, b)
+        assert drop(cat(a, b), tlv_len(a)) == cat(drop(a, tlv_len(a)), b)
+        assert content_of(cat(a, b)) == content_of(a)
+        lemma_chunk(drop(a, tlv_len(a)), b, o)
+
+
+def lemma_residue_incomplete(s: bytes) -> None:
+    """The residue never starts with a complete TLV (so holding it back is justified), and it is a suffix of s."""
+    if tlv_complete(s):
+        lemma_tlv_prefix(s, empty())
+        lemma_residue_incomplete(drop(s, tlv_len(s)))
